@@ -263,18 +263,23 @@ impl<'a> SpecGen<'a> {
                 6 => { let mut ms = vec![]; if let Some(t) = self.solid_ref() { ms.push(t); } let mut o = self.object(1, false); o.as_object_mut().unwrap().remove("type"); ms.push(o); self.feat("allof_body"); json!({"allOf": ms}) }
                 _ => self.object(1, false),
             };
-            // one operation's inputs form one scope (they become fields of one struct): drop inline body
-            // members whose folded name equals a parameter's
+            // parameters and body members are separate scopes in OpenAPI: a body member may be named like a
+            // parameter (`PUT /widgets/{id}` with `id` in the body). Names that differ but fold to the same
+            // Rust identifier across the two scopes are avoided (the struct would get two equal fields).
             let mut body_schema = body_schema;
             let fold = |s: &str| s.chars().filter(|c| c.is_ascii_alphanumeric()).collect::<String>().to_lowercase();
-            let taken: Vec<String> = op.get("parameters").and_then(|p| p.as_array()).map(|a| a.iter().filter_map(|p| p["name"].as_str().map(fold)).collect()).unwrap_or_default();
-            let mut taken = taken;
-            for p in path_params { taken.push(fold(p)); }
+            let mut taken: Vec<String> = op.get("parameters").and_then(|p| p.as_array()).map(|a| a.iter().filter_map(|p| p["name"].as_str().map(|x| x.to_string())).collect()).unwrap_or_default();
+            for p in path_params { taken.push(p.clone()); }
             fn strip(v: &mut Value, taken: &[String], fold: &dyn Fn(&str) -> String) {
-                if let Some(props) = v.get_mut("properties").and_then(|p| p.as_object_mut()) { props.retain(|k, _| !taken.contains(&fold(k))); }
+                if let Some(props) = v.get_mut("properties").and_then(|p| p.as_object_mut()) { props.retain(|k, _| !taken.iter().any(|t| t != k && fold(t) == fold(k))); }
                 if let Some(ms) = v.get_mut("allOf").and_then(|a| a.as_array_mut()) { for m in ms { strip(m, taken, fold); } }
             }
             strip(&mut body_schema, &taken, &fold);
+            if self.rng.chance(1, 6) && !taken.is_empty() && body_schema.get("properties").is_some() {
+                let n = self.rng.pick(&taken[..]).clone();
+                body_schema["properties"][&n] = json!({"type": "string"});
+                self.feat("body_member_named_like_parameter");
+            }
             op.insert("requestBody".into(), json!({"content": {"application/json": {"schema": body_schema}}}));
             self.feat("body");
         }
